@@ -129,6 +129,51 @@ def user_blocks(res, rng, n):
         res.count(('user', i), hist={'user_designs': 'wild'})
 
 
+def constant_reassign_stream(res, rng, n):
+    """the repo's own tests drive circuits by reassigning `Constant.value` between clock calls; the new value may be negative or
+    oversized: whatever it is, every wire must stay in range after the next clk() (and inside listeners); adders with a MULTI-BIT
+    carry-in and a result wider than both operands sit downstream"""
+    import py4hw, contextlib, io
+    for i in range(n):
+        r = rng.fork(i)
+        hw = py4hw.HWSystem()
+        wa, wb, wc = r.randint(1, 9), r.randint(1, 9), r.randint(1, 4)
+        a, b, ci = hw.wire('a', wa), hw.wire('b', wb), hw.wire('ci', wc)
+        wr = max(wa, wb) + r.choice([0, 1, 1, 2])
+        s_, q = hw.wire('s', wr), hw.wire('q', wr)
+        ca = py4hw.Constant(hw, 'ca', r.randint(0, (1 << wa) - 1), a)
+        cb = py4hw.Constant(hw, 'cb', r.randint(0, (1 << wb) - 1), b)
+        cc = py4hw.Constant(hw, 'cc', r.randint(0, (1 << wc) - 1), ci)
+        from py4hw.logic.arithmetic import AddCarryIn
+        AddCarryIn(hw, 'add', a, b, s_, ci)
+        py4hw.Reg(hw, 'r', s_, q)
+        with contextlib.redirect_stdout(io.StringIO()):
+            sim = hw.getSimulator()
+        wires = D.all_wires(hw)
+        cur = {}
+        desc = dict(design='Constant a, b, ci (multi-bit) -> AddCarryIn -> Reg; Constant.value reassigned between clock calls',
+                    widths=dict(a=wa, b=wb, ci=wc, s=wr))
+
+        def chk(_d=None, _s=None):
+            for w in wires:
+                v = w.value
+                if not (isinstance(v, int) and 0 <= v < (1 << w.getWidth())):
+                    res.fail(f'wire {w.getFullPath()} width {w.getWidth()} holds {v}',
+                             dict(desc, wire=w.getFullPath(), width=w.getWidth(), value=v, constants=dict(cur), clks=sim.total_clks))
+                    return
+        chk()
+        sim.addListener(Listener(None, chk, sim))
+        for t in range(r.randint(3, 10)):
+            for c_, w_ in ((ca, wa), (cb, wb), (cc, wc)):
+                m = (1 << w_) - 1
+                c_.value = r.choice([m, m, m - 1 if m else 0, -1, -m - 1, m + 1, m + 7, 1 << (w_ + 3), r.randint(0, m), 0])
+                cur[c_.name] = c_.value
+            with contextlib.redirect_stdout(io.StringIO()):
+                sim.clk(r.choice([1, 1, 2]))
+            chk()
+        res.count(('const-reassign', i, wa, wb, wc, wr), hist={'const_reassign_designs': 1})
+
+
 _C07_FAM = None
 
 
@@ -282,6 +327,7 @@ def main(res, tier, rng, replay):
         res.broken.append(('correspondence', 'net-sim', str(e)[:300]))
     user_blocks(res, rng.fork('user'), 40 if tier == 'quick' else 600)
     single_block_stream(res, rng.fork('single'), 300 if tier == 'quick' else 6000)
+    constant_reassign_stream(res, rng.fork('const-reassign'), 80 if tier == 'quick' else 1500)
     res.cov['rule'] = ('T1: every generated leaf/FSM/Wire definition vs the real method on seeded states (distinct = distinct request '
                        'line); designs: seeded random netlists of primitive leaves with registers/feedback/memories, built in random '
                        'instantiation order, driven by extreme pokes (negative, oversized) and clk(n); every wire range-checked on the '
